@@ -64,7 +64,7 @@ Definition restore (v : saved) (c : ctrl) : ctrl :=
 Inductive kind :=
 | KCaptured    (* EvalCallExpression, Apply, Force: capture; pc := -2; CallFunction; Run; restore on error *)
 | KUser        (* CallUserFunction: capture; push address; host function (may re-enter); restore on error or panic *)
-| KEvalFn      (* EvalFunction (since 4b37dbf): capture; CallFunction (pc unchanged); Run; restore on error;
+| KEvalFn      (* EvalFunction (since 4b37dbf, 8e7da1c): capture; CallFunction (pc unchanged); Run; restore on error;
                   on success the state the callee's return left is kept *)
 | KSource.     (* source.go:SourceExpressions (engine of SourceStream / SourceFile and of the builtin source):
                   saves curfunc and pc; curfunc := __source, pc := 0; Run; a DEFER puts curfunc and pc back
@@ -148,7 +148,7 @@ Section Exec.
           | KEvalFn =>
             let st := capture c in
             match run body (call_function 9 c) with
-            | OK c1 => OK c1
+            | OK c1 => OK (jump (v_cur st) (v_pc st) c1)     (* 8e7da1c: pc / curfunc put back after a successful call *)
             | Err c1 => Err (restore st c1)
             | Crash => Crash
             end
